@@ -53,10 +53,46 @@ def known_table():
     return "\n".join(rows) + "\n\nFixed (one `fix:` commit each in /repo; the entry suppresses nothing):\n\n" + fx + "\n"
 
 
+def round_table(rnd):
+    """first-seen results of the unseen changes of one round: what the checks said before any rule was touched for them"""
+    rows = ["| change | breaks | own check at first sight | other checks that reported it at first sight | own check now |", "|---|---|---|---|---|"]
+    M = {}
+    mp = os.path.join(V, "seeded", "MATRIX.json")
+    if os.path.exists(mp):
+        M = json.load(open(mp))
+    n = v = e2 = oth = now_v = 0
+    for name in sorted(os.listdir(os.path.join(V, "seeded"))):
+        mf = os.path.join(V, "seeded", name, "meta.json")
+        if not os.path.isfile(mf):
+            continue
+        meta = json.load(open(mf))
+        if meta.get("round") != rnd:
+            continue
+        fs = meta.get("first_seen_result", {})
+        own = str(fs.get("own_check_exit"))
+        prop = meta.get("breaks_property")
+        others = sorted(x.split(":")[0] for x in fs.get("checks_fired", []) if x.endswith(":1") and not x.startswith(prop + ":"))
+        if meta.get("first_seen_note"):
+            others = []
+        n += 1
+        v += own == "1"
+        e2 += own == "2"
+        oth += own != "1" and bool(others)
+        now = M.get(name, {}).get("own_check", "?")
+        if meta.get("not_detected_by_design") and now != "VIOLATION":
+            now = "silent (stated miss)"
+        now_v += now == "VIOLATION"
+        rows.append("| %s | %s | %s | %s | %s |" % (name, prop, {"1": "VIOLATION", "2": "ANALYSIS-ERROR (exit 2)", "0": "silent"}.get(own, own), ", ".join(others) or "-", now))
+    head = ("%d unseen changes; at first sight the targeted check reported %d as a VIOLATION (%.0f%%), ended %d as ANALYSIS-ERROR (exit 2, fail closed) and was silent on %d "
+            "(%d of the non-reports were reported by another property's check). After the strengthening described above the targeted check reports %d.\n\n" % (
+                n, v, 100.0 * v / max(n, 1), e2, n - v - e2, oth, now_v))
+    return head + "\n".join(rows) + "\n"
+
+
 def main():
     p = os.path.join(V, "DESIGN.md")
     s = open(p).read()
-    for tag, fn in (("SEEDED", seeded_table), ("REFACTORS", refactor_table), ("KNOWN", known_table)):
+    for tag, fn in (("SEEDED", seeded_table), ("REFACTORS", refactor_table), ("KNOWN", known_table), ("ROUND2", lambda: round_table(2)), ("ROUND3", lambda: round_table(3))):
         a, b = "<!-- AUTOGEN:%s:BEGIN -->" % tag, "<!-- AUTOGEN:%s:END -->" % tag
         if a in s and b in s:
             i, j = s.index(a) + len(a), s.index(b)
